@@ -377,7 +377,7 @@ GLOBALS_ARGS = [['5']]
 
 def all_families():
     return ((many_locals_programs, LOCALS_ARGS), (many_params_programs, PARAMS_ARGS), (long_array_programs, ARRAY_ARGS), (many_labels_programs, LABELS_ARGS),
-            (deep_nesting_programs, DEPTH_ARGS), (many_globals_programs, GLOBALS_ARGS))
+            (deep_nesting_programs, DEPTH_ARGS), (many_globals_programs, GLOBALS_ARGS), (deep_expr_programs, EXPR_ARGS))
 
 
 ENTRY_COUNTS = (4, 5, 6, 7, 8, 12, 20, 40)
@@ -409,3 +409,63 @@ def many_entry_programs():
                      W(Index(Var('loc', Arr(INT, False)), Lit(INT, 1))), _mark(' '), _wi(Var(f'p{P - 1}', (INT, BYTE, INT, STRING, INT)[(P - 1) % 5])), _mark('\n')]
             main = Func('@is_you', params, EMPTY, body)
             yield f'scale-entry/{P}/arr@{arr_at}', Program([], [main, H]), args
+
+
+EXPR_DEPTHS = (6, 12, 20, 28)
+
+
+def deep_expr_programs():
+    """expressions nested D deep in which every level has to keep a value alive while the next level is evaluated: right-nested
+    arithmetic over effectful calls, calls as arguments of calls, an index inside an index, short-circuit chains, comparisons of sums -
+    as value, as array index, as argument, in a condition and as a dynamic array length"""
+    tick = Func('tick', [('k', INT, False)], INT, [W(S('t')), W(Var('k', INT)), Ret(Bin('+', Var('k', INT), _i(1)))])
+    idf = Func('idf', [('x', INT, False), ('y', INT, False)], INT, [Ret(Bin('-', Bin('*', Var('x', INT), _i(2)), Var('y', INT)))])
+    n = Var('n', INT)
+    q = Var('q', Arr(INT, False))
+    for D in EXPR_DEPTHS:
+        def right_nested(ops):
+            e = Call(tick, [_i(D)])
+            for k in reversed(range(D)):
+                left = (Call(tick, [_i(k)]), Bin('+', n, _i(k)), Index(q, Bin('%', Bin('+', n, _i(k)), _i(4))), n)[k % 4]
+                e = Bin(ops[k % len(ops)], left, e)
+            return e
+
+        def nested_calls():
+            e = n
+            for k in range(D):
+                e = Call(idf, [e, Call(tick, [_i(k)])]) if k % 2 else Call(idf, [Bin('+', n, _i(k)), e])
+            return e
+
+        def nested_index():
+            e = Bin('%', n, _i(4))
+            for k in range(D):
+                e = Bin('%', Bin('+', Index(q, e), _i(k)), _i(4))
+            return Index(q, e)
+
+        def logic_chain():
+            e = Bin('>', Call(tick, [_i(99)]), _i(0))
+            for k in reversed(range(D)):
+                c = Bin(('<', '>=', '!=')[k % 3], Bin('+', n, _i(k)), Call(tick, [_i(k)])) if k % 2 else Bin('>', Index(q, Lit(INT, k % 4)), _i(k - 3))
+                e = Bin(('and', 'or')[k % 2], c, e)
+            return e
+        forms = {'sum': lambda: right_nested(('+', '-')), 'mixed': lambda: right_nested(('+', '*', '-')), 'calls': nested_calls, 'index': nested_index}
+        for fn, mk in forms.items():
+            body = [Decl('q', Arr(INT, False), ArrLit([n, _i(3), Bin('+', n, _i(1)), _i(2)], INT, False)),
+                    W(mk()), _mark(' '),
+                    W(Index(q, Bin('%', Bin('+', Bin('%', mk(), _i(4)), _i(4)), _i(4)))), _mark(' '),
+                    W(Call(idf, [mk(), n])), _mark(' '),
+                    If(Bin('>', mk(), n), [_mark('T')], [_mark('F')]),
+                    VLA('dyn', INT, Bin('+', Bin('%', Bin('+', Bin('%', mk(), _i(3)), _i(3)), _i(3)), _i(1))), W(Len(Var('dyn', Arr(INT, False)))), _mark(' '),
+                    Assign(Index(q, Lit(INT, 1)), mk()), W(Index(q, Lit(INT, 1))), W(Index(q, Lit(INT, 0))), _mark('\n')]
+            f = Func('f', [('n', INT, False)], EMPTY, body)
+            main = Func('@is_you', [('v', Arr(INT, True), False)], EMPTY, [Decl('keep', Arr(INT, False), ArrLit([_i(31), arg(0)], INT, False)), ExprStmt(Call(f, [arg(0)])), ExprStmt(Call(f, [arg(1)])),
+                                                                          W(Index(Var('keep', Arr(INT, False)), Lit(INT, 0))), W(Index(Var('keep', Arr(INT, False)), Lit(INT, 1))), _mark('\n')])
+            yield f'scale-expr/{fn}/{D}', Program([], [main, f, tick, idf])
+        body = [Decl('q', Arr(INT, False), ArrLit([n, _i(3), Bin('+', n, _i(1)), _i(2)], INT, False)), If(logic_chain(), [_mark('T')], [_mark('F')]), W(logic_chain()), _mark(' '),
+                Decl('b', BOOL, Un('not', logic_chain())), W(Var('b', BOOL)), _mark('\n')]
+        f = Func('f', [('n', INT, False)], EMPTY, body)
+        main = Func('@is_you', [('v', Arr(INT, True), False)], EMPTY, [ExprStmt(Call(f, [arg(0)])), ExprStmt(Call(f, [arg(1)]))])
+        yield f'scale-expr/logic/{D}', Program([], [main, f, tick])
+
+
+EXPR_ARGS = [['1', '2'], ['-3', '0']]
